@@ -116,6 +116,44 @@ def ct_geometry_mismatch(o, src=None):
     return bad
 
 
+def degenerate_depiction(m, eps=2e-3):
+    """True when a wedge of the written molecule does not determine the configuration it stands for: the atoms the wedge is
+    judged against are collinear on the 4-decimal coordinates (T-shaped centre with the wedge on the stem; allene substituent on
+    the axis).  Such a drawing is ambiguous by any reading (the signed volume is 0 up to rounding noise), so the configuration
+    is outside 'when 2D coordinates are present'.  Independent plane geometry; the wedge list is the library's _wedge_map."""
+    def xy(n):
+        a = m._atoms[n]
+        return round(a.x, 4), round(a.y, 4)
+
+    def cross(o, a, b):
+        (ox, oy), (ax, ay), (bx, by) = xy(o), xy(a), xy(b)
+        return (ax - ox) * (by - oy) - (ay - oy) * (bx - ox)
+    sth = m.stereogenic_tetrahedrons
+    cent = m._stereo_allenes_centers
+    term = m._stereo_allenes_terminals
+    for n, w, s in m._wedge_map:
+        if not s:
+            return True
+        if n in sth:
+            rest = [x for x in sth[n] if x != w]
+            if len(rest) == 2:
+                v = cross(n, rest[0], rest[1])
+            elif len(rest) == 3:
+                v = cross(rest[0], rest[1], rest[2])
+            else:
+                return True
+            if abs(v) < eps:
+                return True
+        elif n in cent:
+            c = cent[n]
+            t1, t2 = term[c]
+            other = t2 if n == t1 else t1
+            subs = [x for x in m._bonds[other] if m._bonds[other][x].order != 2 and m._atoms[x].atomic_number != 1]
+            if any(abs(cross(n, other, x)) < eps for x in subs) or abs(cross(other, n, w)) < eps:
+                return True
+    return False
+
+
 def has_labels(m):
     return any(a.stereo is not None for _, a in m.atoms()) or any(b.stereo is not None for *_, b in m.bonds())
 
@@ -305,7 +343,7 @@ def damages(rec, fmt, r, columns='some', repl='X 9-'):
     for j in range(n):                                # duplicate a line
         yield 'duplicate', j, headl + body[:j + 1] + body[j:] + tail
     # one character of one line
-    lines = range(n) if columns == 'all' else _interesting_lines(body, r)
+    lines = range(n) if columns == 'all' else _fixed_lines(body, columns == 'first') if columns in ('fixed', 'first') else _interesting_lines(body, r)
     for j in lines:
         ln = body[j].rstrip('\n')
         for c in range(len(ln)):
@@ -347,6 +385,20 @@ def _kind(line):
     if len(line.rstrip('\n')) in (6, 9) and line.strip().replace(' ', '').isdigit():
         return 'rxncounts'
     return 'other'
+
+
+def _fixed_lines(body, first_only=False):
+    """seed-independent choice: every line of a short record; of a long one the first 8 lines (headers, counts) and the first
+    line of each syntactic kind"""
+    if len(body) <= 24 and not first_only:
+        return list(range(len(body)))
+    seen, out = set(), ([] if first_only else list(range(8)))
+    for j, ln in enumerate(body):
+        k = _kind(ln)
+        if k not in seen:
+            seen.add(k)
+            out.append(j)
+    return sorted(set(out))
 
 
 def _interesting_lines(body, r):
